@@ -24,7 +24,7 @@ PROP = dict(
                  "character counting (conservation, non-empty commit string, the history ledger) needs the engine to tile the "
                  "buffer with one character per symbol at the states where a commit path runs (TilesAt; ConvTiles = at every "
                  "state); tilesAt_of_C03 reduces it to C03's hypotheses; history_ledger_linked / _total / _fresh / _C03 discharge "
-                 "it along every history outside C01's known class (F02/F03) from C01's reachable-state invariant, for every "
+                 "it along every history outside C01's word-losing class Known (the former F02/F03 class: operations that leave a buffered syllable without a word; such a syllable is now shown and committed as its 1-4 character Bopomofo spelling, so the one-character-per-symbol ledger is stated for states where every buffered syllable has a word) from C01's reachable-state invariant at strength True, for every "
                  "environment satisfying C01's EnvOK (all its clauses are used); everything else holds for every environment",
                  "history_ledger_C03 (engine = C03's model): C03's theorems cover buffers of at most 128 symbols (ScoreBound); "
                  "for longer buffers the engine contract stays a hypothesis (EngineIsC03.beyond)",
@@ -53,10 +53,10 @@ MANIFEST = dict(
          "emitted_was_displayed, step_ledger / step_remaining, and history_ledger by induction over operation lists: the "
          "characters of all commit strings plus the final pre-edit equal the initial pre-edit plus every accepted "
          "character. The tiling hypothesis is needed only at states where a commit path runs (TilesAt); tilesAt_of_C03 "
-         "derives it from C03's theorems under exactly C03's hypotheses (CompValid, NoEmptyKey, WellFormed, HasWord for the "
+         "derives it from C03's theorems under exactly C03's hypotheses (CompValid, WellFormed, HasWord under the engine's strategy for every engine - formerly NoEmptyKey too, and HasWord only for the "
          "simple engine), shown non-vacuous on an environment whose engine is C03's engine model. Linked (round 2, "
          "Proofs/EditorLink.lean): the edited state of every operation satisfies C01's shared-state invariant (editPart_shInv), "
-         "so TilesAlong is a theorem along every history outside C01's known class (tilesAlong_of_allowed) and "
+         "so TilesAlong is a theorem along every history outside C01's word-losing class Known (tilesAlong_of_allowed) and "
          "history_ledger_linked / history_ledger_total / history_ledger_fresh state the ledger with NO tiling premise for "
          "every environment satisfying C01's EnvOK; history_ledger_C03 instantiates the engine clause with C03's engine model "
          "(EngineIsC03, envOK_of_C03), and linkEnv_key_histories is the premise-free instance: every key history on the fresh "
@@ -69,7 +69,7 @@ MANIFEST = dict(
          "generated histories. Premise, not proved here: that the real engines are C03's model (C03's own correspondence). "
          "That editor histories reach only valid compositions with a word for every buffered syllable is C01's invariant, now "
          "connected: history_ledger keeps TilesAlong as a hypothesis, history_ledger_linked has none beyond C01's EnvOK and the "
-         "exclusion of C01's known class F02/F03 (jump_* on an open phrase list is included since C01 covers it); C03's engine "
+         "exclusion of C01's word-losing class Known (former F02/F03: no longer a crash, but the spelling shown for a word-less syllable has 1-4 characters; oracle_c02 counts a spelled syllable as one symbol: stats c02_commits_with_wordless_spelling) (jump_* on an open phrase list is included since C01 covers it); C03's engine "
          "theorems reach buffers of at most 128 symbols, beyond that the engine clause is assumed. Trusted: Lean kernel (standard axioms), the read-only snapshot hook, harness + compiled "
          "model driver. F29 (commit string outliving its key) was a genuine defect, repaired by fix commit 1c4da4f; "
          "reintroducing it is reported with a 3-step history.",
